@@ -2,7 +2,8 @@
 
 Specs: spec/Outcome.tla (legal outcome classes), spec/Tokens.tla (all token sequences over a
 representative alphabet, grammar classes for anti-vacuity, one-token mutations and their seeded
-choice), spec/ParserLife.tla (step machine of Parser.parse / advance / finally-reset, history
+choice), spec/ArgClass.tla (function-call family),
+spec/ParserLife.tla (step machine of Parser.parse / advance / finally-reset, history
 variable `first`, API view + refinement), spec/TraceParserLife.tla (binding B).
 
 Binding A
@@ -12,9 +13,16 @@ Binding A
     outcome is projected to a shape [k, coded] and must be a member of the legal sets printed by TLC;
   * TLC-chosen one-token mutations (descriptors <<op, i, tok>>) are applied 1:1 to the token lists
     of the expressions harvested from the repository's test-suite run, same judgement;
-  * every path of the ParserLife graph (parse histories of <= MaxCalls calls over 9 source classes
+  * every state of the ArgClass graph -- (built-in function, parameter position, argument class) over the
+    LIVE function_signatures table + the xs: constructors (binding C), classes: untyped node,
+    xs:untypedAtomic valid/invalid, empty, wrong-typed atomics, sequence, function/map/array item, huge
+    negative integer, malformed URI, U+0000 -- is rendered to a call and judged the same way;
+  * the seed expressions of Tokens.tla (FLWOR, quantifiers, typed array/map tests, inline functions, arrow,
+    lookup ...) with ALL their one-token mutations, and the stress vectors (deep nesting, long literals);
+  * every path of the ParserLife graph (parse histories of <= MaxCalls calls over 10 source classes
     on 2 instances) is replayed on real parser instances: outcome kind = the spec's, outcome
-    identity (tree text / error code) = a fresh instance's, cursor attributes reset.
+    identity (tree text / error code) = a fresh instance's (the culprit earlier call is searched by
+    replaying pairs on fresh instances), cursor attributes reset.
 Binding B
   * this module is also a pytest plugin (`-p engine.props.c03`): it wraps XPath1Parser.parse and
     records call/ret events of the repository's own test-suite; the events (one trace per test
@@ -1224,7 +1232,7 @@ def run(chk: core.Check) -> None:
             ent = [escape_features(kind, 'parse', e), 1, case, 'ApiRetStep: legal outcome', [e['k'], e['v']]]
             merge_fails(all_fails, [ent])
         if not consistent:
-            ent = [dict(kind='history', binding='trace', parser_class=cls.rsplit('.', 1)[-1], observed=e['k']), 1, case,
+            ent = [dict(kind='history', binding='trace', parser_class=(cls.rsplit('.', 1)[-1] if is_suite else cls), observed=e['k']), 1, case,
                    'ApiRetStep: outcome = first outcome of the source class', [e['k'], e['v']]]
             merge_fails(all_fails, [ent])
         if not reset:
